@@ -30,6 +30,8 @@ def plan(tier, seed):
     arith += [{'kind': k, 'op': o, 'refl': r, 'rhs': h, 'shape': [2], 'int': True} for k in ('QU', 'IQUV') for o in ('add', 'sub', 'mul', 'truediv') for r in (False, True) for h in ('float', 'jnp0d', 'int')]
     arith += [{'seq': o, 'kind': k, 'int': i} for o in ('fwd', 'rev') for k in ('I', 'IQU') for i in (False, True)]
     unary = [{'kind': k, 'unary': u, 'shape': s} for k in KINDS for u in ('neg', 'abs', 'pos', 'idx_int', 'idx_slice', 'idx_arr', 'idx_mask', 'ravel', 'reshape', 'matmul', 'bad_operands', 'props') for s in ([2], [2, 3])]
+    # 0-d and size-1 components: ravel / reshape / sign operations at the lower boundary of the rank
+    unary += [{'kind': k, 'unary': u, 'shape': s} for k in KINDS for u in ('neg', 'abs', 'pos', 'ravel', 'reshape', 'matmul') for s in ([], [1], [1, 1])]
     unary += [{'kind': k, 'unary': u, 'shape': [3, 2, 4]} for k in KINDS for u in ('idx_int_slice_arr', 'idx_arr_slice_arr', 'idx_int_ell_arr', 'idx_newaxis_arr', 'idx_mixed_dtypes')]
     fact = [{'kind': k, 'factory': f, 'shape': s, 'dt': d} for k in KINDS for f in ('zeros', 'ones', 'full', 'normal', 'uniform', 'structure_for', 'from_iquv')
             for s in ([], [2], [2, 3]) for d in ('float32', 'float16', 'int32')]
